@@ -479,22 +479,57 @@ type IU5 struct {
 	F1     *T1
 }
 
+// Parameter objects that get their dig.In only through embedded In structs
+// (two at the same depth; or next to a plain field that happens to be named In).
+type EIn1 struct {
+	dig.In
+	F0 *T0
+}
+type EIn2 struct {
+	dig.In
+	F0 *T1 `optional:"true"`
+}
+type EE0 struct {
+	EIn1
+	EIn2
+}
+type EF0 struct {
+	In *T2
+	EIn1
+}
+
 type declIn struct {
 	RT     reflect.Type
 	Fields []Param
+	Names  []string // struct field name of each template field (default F<i>)
+}
+
+func (d declIn) fieldName(i int) string {
+	if i < len(d.Names) {
+		return d.Names[i]
+	}
+	return fmt.Sprintf("F%d", i)
 }
 
 var declIns = map[string]declIn{}
-var DeclInNames = []string{"IU0", "IU1", "IU2", "IU3", "IU4", "IU5"}
+var DeclInNames = []string{"IU0", "IU1", "IU2", "IU3", "IU4", "IU5", "EE0", "EF0"}
 
 func init() {
 	iu0 := []Param{{T: "T1"}, {T: "T2", Opt: true}}
-	declIns["IU0"] = declIn{reflect.TypeOf(IU0{}), iu0}
-	declIns["IU1"] = declIn{reflect.TypeOf(IU1{}), []Param{{T: "T0"}, {T: "T1", Group: "g"}}}
-	declIns["IU2"] = declIn{reflect.TypeOf(IU2{}), []Param{{T: "T2", Name: "a"}, {T: "T0"}}}
-	declIns["IU3"] = declIn{reflect.TypeOf(IU3{}), []Param{{T: "T3"}, {T: "I0"}}}
-	declIns["IU4"] = declIn{reflect.TypeOf(IU4{}), []Param{{IsObj: true, Decl: "IU0", Obj: iu0}, {T: "T1", Opt: true}}}
-	declIns["IU5"] = declIn{reflect.TypeOf(IU5{}), []Param{{T: "T0", Group: "g", Soft: true}, {T: "T1"}}}
+	declIns["IU0"] = declIn{RT: reflect.TypeOf(IU0{}), Fields: iu0}
+	declIns["IU1"] = declIn{RT: reflect.TypeOf(IU1{}), Fields: []Param{{T: "T0"}, {T: "T1", Group: "g"}}}
+	declIns["IU2"] = declIn{RT: reflect.TypeOf(IU2{}), Fields: []Param{{T: "T2", Name: "a"}, {T: "T0"}}}
+	declIns["IU3"] = declIn{RT: reflect.TypeOf(IU3{}), Fields: []Param{{T: "T3"}, {T: "I0"}}}
+	declIns["IU4"] = declIn{RT: reflect.TypeOf(IU4{}), Fields: []Param{{IsObj: true, Decl: "IU0", Obj: iu0}, {T: "T1", Opt: true}}}
+	declIns["IU5"] = declIn{RT: reflect.TypeOf(IU5{}), Fields: []Param{{T: "T0", Group: "g", Soft: true}, {T: "T1"}}}
+	e1 := []Param{{T: "T0"}}
+	e2 := []Param{{T: "T1", Opt: true}}
+	declIns["EIn1"] = declIn{RT: reflect.TypeOf(EIn1{}), Fields: e1}
+	declIns["EIn2"] = declIn{RT: reflect.TypeOf(EIn2{}), Fields: e2}
+	declIns["EE0"] = declIn{RT: reflect.TypeOf(EE0{}), Names: []string{"EIn1", "EIn2"},
+		Fields: []Param{{IsObj: true, Decl: "EIn1", Obj: e1}, {IsObj: true, Decl: "EIn2", Obj: e2}}}
+	declIns["EF0"] = declIn{RT: reflect.TypeOf(EF0{}), Names: []string{"In", "EIn1"},
+		Fields: []Param{{T: "T2"}, {IsObj: true, Decl: "EIn1", Obj: e1}}}
 }
 
 // DeclParam returns the IR parameter for a declared parameter object.
